@@ -56,6 +56,15 @@ class E6:
 
     def buffer_start(self, b, e, depth=0):
         """-> reason string if expression e (in body b) denotes the start of a buffer, else None"""
+        raw = e
+        while isinstance(raw, tuple) and raw and raw[0] in ("ref", "deref", "cast"):
+            raw = raw[2] if raw[0] == "cast" else raw[1]
+        if isinstance(raw, tuple) and raw and raw[0] == "phi" and len(raw) > 2 and depth < 6:
+            # one of several alternatives (`match parity { Even => ptr_map(..), Odd => data.cast() }`): each must be a buffer start
+            ws = [self.buffer_start(b, x, depth + 1) for x in raw[1]]
+            if ws and all(ws):
+                return " / ".join(sorted(set(ws)))
+            return None
         e = strip_ptr(canon(e))
         while isinstance(e, tuple) and e and e[0] in ("ref", "deref", "cast"):
             e = e[2] if e[0] == "cast" else e[1]
